@@ -175,10 +175,16 @@ def seedFromMeta : List Nat → Except PyErr (List Nat)
   | [] => .error .indexError                    -- `metadata[0]`
   | b0 :: rest => seedLoop rest (b0 :: List.replicate 31 0)
 
+/-- `bits % 2 == 0 and (bits // 2) % 8 <= 2` (D21, /repo fixes 8de8de4 + bd690e6): the key sizes the
+generator emulation can produce. `generate_prime(k)` draws `8 * (k // 8)` random bits below a forced
+top bit, so for `k % 8 ≥ 3` (and for odd `bits`) no product of two such primes has `bits` bits and
+`generate_key(bits)` never returns: `C06.product_size_never_odd`, `C06.product_size_never_reached`. -/
+def keypairSizeOk (bits : Nat) : Bool := bits % 2 == 0 && decide ((bits / 2) % 8 ≤ 2)
+
 /-- one key of `CheckKeypairDenylist.Check`: `(flagged, attached factors)`.
 `table` is `dict(GetKeypairData().table)` as an association list; `gen seed bits` is the
 oracle for `Generator(seed).generate_key(bits)`, which the real code calls (and which returns)
-for even `bits` only: `C06.keypair_gen_even_only`. -/
+for sizes with `keypairSizeOk` only: `C06.keypair_gen_supported_only`. -/
 def keypairStep (table : List (Nat × List Nat)) (n : Nat)
     (gen : List Nat → Nat → Nat × Nat) : Except PyErr (Bool × List Nat) :=
   match keypairMsb n with
@@ -187,8 +193,8 @@ def keypairStep (table : List (Nat × List Nat)) (n : Nat)
     match table.lookup msb with
     | none => .ok (false, [])
     | some metadata =>
-      -- `and n.bit_length() % 2 == 0` (D21): the generator never returns for an odd size
-      if bitLength n % 2 ≠ 0 then .ok (false, []) else
+      -- `and bits % 2 == 0 and (bits // 2) % 8 <= 2` (D21): sizes the generator never returns for
+      if !keypairSizeOk (bitLength n) then .ok (false, []) else
       match seedFromMeta metadata with
       | .error e => .error e
       | .ok seed =>
@@ -204,7 +210,7 @@ def keypairSeed (table : List (Nat × List Nat)) (n : Nat) : Except PyErr (Optio
     match table.lookup msb with
     | none => .ok none
     | some metadata =>
-      if bitLength n % 2 ≠ 0 then .ok none else
+      if !keypairSizeOk (bitLength n) then .ok none else
       match seedFromMeta metadata with
       | .error e => .error e
       | .ok seed => .ok (some seed)
